@@ -366,6 +366,10 @@ func checkSyntaxInput(data []byte, exp *synExp) (vs []core.Violation, accepted b
 	if out2 := modfile.Format(o2.fs); !bytes.Equal(out, out2) {
 		vs = append(vs, core.Violation{Sig: "c02:not-idempotent", What: fmt.Sprintf("formatting the formatted output changes it: %q -> %q (input %s)", out, out2, q)})
 	}
+	// formatting reads the tree: formatting the same parsed file once more gives the same bytes
+	if again := modfile.Format(o.fs); !bytes.Equal(out, again) {
+		vs = append(vs, core.Violation{Sig: "c02:not-idempotent", What: fmt.Sprintf("formatting the same parsed file a second time gives other bytes: %q then %q (input %s)", out, again, q)})
+	}
 	if exp != nil && exp.Ok {
 		// protocol level: positions the specification predicts
 		want := map[int]synMark{}
@@ -664,12 +668,18 @@ func checkWellFormed(c *core.Case) ([]core.Violation, bool) {
 			if in.Kind == "work" {
 				f, _ := modfile.ParseWork("go.work", []byte(text), fix)
 				out = modfile.Format(f.Syntax)
+				if again := modfile.Format(f.Syntax); !bytes.Equal(out, again) {
+					add("c02:wf:format-twice", "formatting the same parsed go.work a second time gives other bytes (%s, %s)\nfirst:\n%s\nsecond:\n%s", v.name, fixName, out, again)
+				}
 			} else {
 				f, _ := modfile.Parse("go.mod", []byte(text), fix)
 				out, err = f.Format()
 				if err != nil {
 					add("c02:wf:format-error", "Format fails on an accepted file (%s, %s): %v\n%s", v.name, fixName, err, text)
 					continue
+				}
+				if again, _ := f.Format(); !bytes.Equal(out, again) {
+					add("c02:wf:format-twice", "formatting the same parsed go.mod a second time gives other bytes (%s, %s)\nfirst:\n%s\nsecond:\n%s", v.name, fixName, out, again)
 				}
 			}
 			st2, err := parse(string(out))
@@ -938,11 +948,13 @@ func checkQuote(c *core.Case) (vs []core.Violation, nontrivial bool) {
 	wf2, err := modfile.ParseWork("go.work", out, nil)
 	if err != nil {
 		add("c08:quote-roundtrip", "after AddUse(%q) and AddReplace(=> %q) the formatted go.work does not parse strictly: %v\n%s", s, dir, err, out)
+		add("c15:quote-roundtrip", "after AddUse(%q) and AddReplace(=> %q) the in-memory structure holds them, the formatted go.work does not parse: %v", s, dir, err)
 		add("c02:quote-roundtrip", "a go.work with the directory %q written by the package's quoting rule does not parse: %v", s, err)
 		return vs, true
 	}
 	if len(wf2.Use) != 1 || wf2.Use[0].Path != s || len(wf2.Replace) != 1 || wf2.Replace[0].New.Path != dir {
 		add("c08:quote-roundtrip", "after AddUse(%q) and AddReplace(=> %q) the formatted go.work reads back as use %+v replace %+v\n%s", s, dir, usePaths(wf2), wf2.Replace, out)
+		add("c15:quote-roundtrip", "after AddUse(%q) and AddReplace(=> %q) the in-memory structure holds use %v, a strict parse of the formatted file yields use %v", s, dir, usePaths(wf), usePaths(wf2))
 		add("c02:quote-roundtrip", "a go.work with the directory %q written by the package's quoting rule reads back differently", s)
 	}
 	// formatting the parsed file again changes nothing, and the values survive (C02, second sentence)
